@@ -18,6 +18,7 @@ import Golib.Step.TxRecord
 import Golib.Step.LegacyCarried
 import Golib.Step.Prefix
 import Golib.Step.Reuse
+import Golib.Step.Setters
 import Golib.Step.ValueInst
 
 namespace C08
@@ -525,6 +526,42 @@ theorem profilepack_transaction_fresh (o o' x : Rec) (r : Bytes) (h : WF profile
     (hp' : profilePackReadInto o' (profilePackBody.write x ++ r) = some (p', r)) :
     ∀ nm ∈ txRecord.names, p nm = p' nm :=
   Step.profilepack_transaction_fresh valueRT o o' x r h p p' hp hp'
+
+/-! ### builders called more than once on one object (the write-side mirror of decoding into a used object) -/
+
+/-- `SetProfile(steps)` REPLACES: after it the field is exactly `ToBytesStep(steps)`, whatever the pack
+    held (an earlier profile, the steps of a record read into it) -/
+theorem setprofile_replaces (f : String) (ss : List Item) (o : Rec) :
+    ((Setter.replaceProfile f).apply (.steps ss) o) f = .b (toBytesStep ss) := setProfile_replaces f ss o
+
+theorem setstack_replaces (f : String) (xs : List Int) (o : Rec) :
+    ((Setter.replaceIntArr f).apply (.ints xs) o) f = .b (encArr (encI 4) xs) := setStack_replaces f xs o
+
+/-- a builder touches its own field only -/
+theorem setter_frame (s : Setter) (a : SArg) (o : Rec) (nm : String) (h : nm ≠ s.field) :
+    (s.apply a o) nm = o nm := Setter.apply_frame s a o nm h
+
+/-- any history of builder calls, field assignments and `Read`s on one object that ENDS with
+    `SetProfile(steps)` leaves exactly those steps in the field -/
+theorem refill_last_setprofile (rd : Rec → D Rec) (ops : List Op) (f : String) (ss : List Item) (o o' : Rec)
+    (h : applyOps rd (ops ++ [.set (.replaceProfile f) (.steps ss)]) o = some o') :
+    o' f = .b (toBytesStep ss) := applyOps_last_setProfile rd ops f ss o o' h
+
+/-- … so the pack written after such a history decodes to a pack whose step blob reads back, step by
+    step, as exactly the LAST profile (nothing of an earlier chunk in front of it) -/
+theorem stepsplitpack_refill_roundtrip (rd : Rec → D Rec) (ops : List Op) (ss : List Item) (o o' : Rec) (r : Bytes)
+    (h : applyOps rd (ops ++ [.set (.replaceProfile "Steps") (.steps ss)]) o = some o')
+    (hr : profileStepSplitPackBody.inRanges o') (hs : ∀ s ∈ ss, StepOK s) :
+    ∃ e, profileStepSplitPackBody.read [] (profileStepSplitPackBody.write o' ++ r) = some (e, r) ∧
+      readAll stepTable (e.get "Steps").toBytes = some (ss.map Item.expected) := by
+  obtain ⟨h1, h2⟩ := stepsplitpack_body_roundtrip o' r hr
+  refine ⟨_, h1, profile_blob_decodes _ "Steps" ss hs ?_⟩
+  rw [h2 "Steps" (by decide), refill_last_setprofile rd ops "Steps" ss o o' h]
+
+/-- the control-bit setters accumulate (`this.Opt |= flag`): a second call keeps the bits of the first -/
+theorem setbits_accumulate (f : String) (k1 k2 : Nat) (o : Rec) (h0 : o f = .i 0) (h1 : k1 < 256) (h2 : k2 < 256) :
+    ((Setter.orByte f).apply (.int k2) ((Setter.orByte f).apply (.int k1) o)) f = .i ((k1 ||| k2 : Nat)) :=
+  orByte_accumulates f k1 k2 o h0 h1 h2
 
 /-! ### truncated records that hold tagged values (TxRecord, MessageStepX, the ProfilePack body) -/
 
